@@ -119,11 +119,11 @@ func VerifOutsideNewNode(c *config.C, l *slog.Logger) (n *VerifOutsideNode, err 
 // VerifOutsideSettle gives the goroutines of cancelled nodes the moment they need to leave their select loops.
 func VerifOutsideSettle() { time.Sleep(30 * time.Millisecond) }
 
-func (n *VerifOutsideNode) Addr() netip.AddrPort    { return n.conn.GetAddr() }
-func (n *VerifOutsideNode) VpnAddrs() []netip.Addr  { return n.f.myVpnAddrs }
-func (n *VerifOutsideNode) AmRelay() bool           { return n.f.relayManager.GetAmRelay() }
-func (n *VerifOutsideNode) AmLighthouse() bool      { return n.f.lightHouse.amLighthouse }
-func (n *VerifOutsideNode) CipherOverhead() int     { return 16 }
+func (n *VerifOutsideNode) Addr() netip.AddrPort   { return n.conn.GetAddr() }
+func (n *VerifOutsideNode) VpnAddrs() []netip.Addr { return n.f.myVpnAddrs }
+func (n *VerifOutsideNode) AmRelay() bool          { return n.f.relayManager.GetAmRelay() }
+func (n *VerifOutsideNode) AmLighthouse() bool     { return n.f.lightHouse.amLighthouse }
+func (n *VerifOutsideNode) CipherOverhead() int    { return 16 }
 
 // Inject hands one underlay datagram to the real readOutsidePackets, then flushes the tun batcher exactly as
 // listenOut's flusher does. The datagram is copied first (decryption is in place).
@@ -195,7 +195,9 @@ func (n *VerifOutsideNode) Pump() {
 }
 
 // Attempt is one timer-driven handshake attempt for a pending handshake (what the timer wheel triggers).
-func (n *VerifOutsideNode) Attempt(vpnAddr netip.Addr) { n.f.handshakeManager.handleOutbound(vpnAddr, false) }
+func (n *VerifOutsideNode) Attempt(vpnAddr netip.Addr) {
+	n.f.handshakeManager.handleOutbound(vpnAddr, false)
+}
 
 // SendLighthouseUpdate is one round of the lighthouse update worker.
 func (n *VerifOutsideNode) SendLighthouseUpdate() { n.f.lightHouse.SendUpdate() }
@@ -277,7 +279,9 @@ func (n *VerifOutsideNode) Pending() []netip.Addr {
 }
 
 // StartHandshake begins a handshake to vpn (Control.ReHandshake of the e2e tests).
-func (n *VerifOutsideNode) StartHandshake(vpn netip.Addr) { n.f.handshakeManager.StartHandshake(vpn, nil) }
+func (n *VerifOutsideNode) StartHandshake(vpn netip.Addr) {
+	n.f.handshakeManager.StartHandshake(vpn, nil)
+}
 
 // DropPending removes a pending handshake (Control.KillPendingTunnel).
 func (n *VerifOutsideNode) DropPending(vpn netip.Addr) bool {
